@@ -215,8 +215,10 @@ pub fn preview(b: &[u8], max: usize) -> String {
 
 /// TOML reorder matching: `actual` (read back from TOML output) must equal
 /// `expected` except that at every table level the entries may appear as
-/// (non-table entries, then table entries), each group in input order, where
-/// non-empty arrays consisting only of tables may count on either side; the
+/// (non-table entries, then table entries), each group in input order. Arrays
+/// that hold tables may count on either side, or form their own group between
+/// the two (which is what the toml crate's writer does: plain values, then
+/// arrays containing a table, then tables, each kind in input order); the
 /// identity order is accepted as well.
 pub fn toml_match(expected: &Val, actual: &Val) -> bool {
     match (expected, actual) {
@@ -225,7 +227,8 @@ pub fn toml_match(expected: &Val, actual: &Val) -> bool {
                 return false;
             }
             let is_aot = |v: &Val| matches!(v, Val::Seq(s) if !s.is_empty() && s.iter().all(|x| x.is_map()));
-            let orders: [Vec<usize>; 3] = [
+            let has_table = |v: &Val| matches!(v, Val::Seq(s) if s.iter().any(|x| x.is_map()));
+            let orders: [Vec<usize>; 5] = [
                 (0..e.len()).collect(),
                 {
                     let mut o: Vec<usize> = (0..e.len()).filter(|&i| !e[i].1.is_map()).collect();
@@ -237,6 +240,23 @@ pub fn toml_match(expected: &Val, actual: &Val) -> bool {
                     o.extend((0..e.len()).filter(|&i| e[i].1.is_map() || is_aot(&e[i].1)));
                     o
                 },
+                {
+                    // what the toml crate's writer does: plain values, then arrays that
+                    // contain a table, then tables; each kind in input order
+                    let mut o: Vec<usize> = (0..e.len()).filter(|&i| !e[i].1.is_map() && !has_table(&e[i].1)).collect();
+                    o.extend((0..e.len()).filter(|&i| has_table(&e[i].1)));
+                    o.extend((0..e.len()).filter(|&i| e[i].1.is_map()));
+                    o
+                },
+                {
+                    // ... followed by pretty-printing, which hoists arrays made only of
+                    // tables into [[header]] sections after the remaining inline arrays
+                    let mut o: Vec<usize> = (0..e.len()).filter(|&i| !e[i].1.is_map() && !has_table(&e[i].1)).collect();
+                    o.extend((0..e.len()).filter(|&i| has_table(&e[i].1) && !is_aot(&e[i].1)));
+                    o.extend((0..e.len()).filter(|&i| is_aot(&e[i].1)));
+                    o.extend((0..e.len()).filter(|&i| e[i].1.is_map()));
+                    o
+                },
             ];
             orders.iter().any(|o| {
                 o.iter().zip(a.iter()).all(|(&i, (ak, av))| &e[i].0 == ak && toml_match(&e[i].1, av))
@@ -244,6 +264,47 @@ pub fn toml_match(expected: &Val, actual: &Val) -> bool {
         }
         (Val::Seq(e), Val::Seq(a)) => e.len() == a.len() && e.iter().zip(a.iter()).all(|(x, y)| toml_match(x, y)),
         _ => expected == actual,
+    }
+}
+
+/// Explains where `toml_match` fails (first failing level), for reports.
+pub fn toml_diff(expected: &Val, actual: &Val, path: &str) -> Option<String> {
+    if toml_match(expected, actual) {
+        return None;
+    }
+    match (expected, actual) {
+        (Val::Map(e), Val::Map(a)) => {
+            let ek: Vec<String> = e.iter().map(|(k, _)| k.show()).collect();
+            let ak: Vec<String> = a.iter().map(|(k, _)| k.show()).collect();
+            let mut es = ek.clone();
+            let mut as_ = ak.clone();
+            es.sort();
+            as_.sort();
+            if es != as_ {
+                return Some(format!("{path}: key sets differ: expected {:?} got {:?}", ek, ak));
+            }
+            // same key set: find a value mismatch by key
+            for (k, v) in e {
+                if let Some((_, av)) = a.iter().find(|(ak, _)| ak == k) {
+                    if let Some(d) = toml_diff(v, av, &format!("{path}.{}", k.show())) {
+                        return Some(d);
+                    }
+                }
+            }
+            Some(format!("{path}: entry order not permitted: input order {:?}, output order {:?}", ek, ak))
+        }
+        (Val::Seq(e), Val::Seq(a)) => {
+            if e.len() != a.len() {
+                return Some(format!("{path}: array length {} vs {}", e.len(), a.len()));
+            }
+            for (i, (x, y)) in e.iter().zip(a).enumerate() {
+                if let Some(d) = toml_diff(x, y, &format!("{path}[{i}]")) {
+                    return Some(d);
+                }
+            }
+            None
+        }
+        _ => Some(format!("{path}: expected {} got {}", expected.show(), actual.show())),
     }
 }
 
